@@ -74,6 +74,14 @@ def run(ctx):
     # 5. binding self-test: a corrupted good trace must be rejected
     if not fails:
         selftest(ctx, events)
+    # 6. extension: the node's second pool (P2P notary requests) - spec/notarypool, harness/c08notary
+    ep = os.path.join(os.path.dirname(os.path.abspath(__file__)), "c08_notary.py")
+    if os.path.exists(ep):
+        import importlib.util
+        sp = importlib.util.spec_from_file_location("check_c08_notary", ep)
+        m = importlib.util.module_from_spec(sp)
+        sp.loader.exec_module(m)
+        m.run_ext(ctx)
 
 
 def selftest(ctx, events):
